@@ -9,7 +9,7 @@
    hex key hk; [content_ok t]: stored values non-empty, keys and values < 2^32 bytes.
    Guard of every positive statement: NON-EMPTY KEYS OF ONE FIXED LENGTH (as snap's
    32-byte hashes); the three *_refuted witnesses show what happens outside it. *)
-From GV Require Import Lib.Tactics Lib.Bytes Trie.Hex Trie.Node Trie.Ops Trie.Hash Trie.OpsProofs Trie.Canon Trie.Stack Trie.Proof Trie.ProofProofs Trie.Range Trie.RangeProofs.
+From GV Require Import Lib.Tactics Lib.Bytes Trie.Hex Trie.Node Trie.Ops Trie.Hash Trie.OpsProofs Trie.Canon Trie.Stack Trie.Proof Trie.ProofProofs Trie.Range Trie.RangeProofs Trie.RangeComplete.
 Local Open Scope N_scope.
 
 (* no edge proofs: accepted <-> the run is strictly increasing, free of deletions and is
@@ -166,22 +166,39 @@ Theorem C09_range_total : forall (H : list N -> list N),
 Proof. exact general_total. Qed.
 Print Assumptions C09_range_total.
 
-(* range_complete_honest (two-edge branch).  FULL STATEMENT, NOT PROVED:
-     for a canonical trie t with keys of one length Lb, a start key [first] of that length,
-     [keys]/[values] = exactly the entries of t with first <= key <= last (at least one, last
-     being the greatest, and not the single-element case first = last), and a database holding
-     the root node and the hashed nodes on the paths of first and last:
-        exists b, verify_range_proof H r first keys values (Some db) = Rok b /\
-                  (b = true <-> has_gt t (keybytes_to_hex last)).
-   PROVED (below, _partial): such a response - indeed any well-formed run whose last key is a
-   key of the trie - passes the batch checks, both proofToPath calls and unsetInternal, never
-   panics (C09_range_total) and can only end in acceptance, in "invalid proof" (root mismatch)
-   or in a MissingNodeError during re-insertion; once accepted, the content and "more" are
-   exact (C09_range_sound_general).  MISSING: (a) re-insertion of keys inside the interval
-   never meets a hash node; (b) the rebuilt trie is structurally the original one, so that the
-   roots agree.  Evidence for (a),(b): every honest response of the correspondence sweep
-   (all tries of <= 5 keys over an 8-key universe x every run; random 32-byte-key tries) is
-   accepted by model and implementation. *)
+(* range_complete_honest (two-edge branch), FULL: the honest response to a range request -
+   keys/values are exactly the entries of the trie with firstKey <= key <= lastKey (at least one;
+   lastKey the last of them, firstKey < lastKey), the root node and the hashed nodes on the paths
+   of firstKey and lastKey are in the proof set - is accepted, and "more" is exactly "the trie
+   holds a key beyond the last one".  ([sorted]: strictly increasing; the run lies in the interval
+   and covers every key of the trie in it; the order on hex keys is bytes.Compare, C09_hex_order.) *)
+Theorem C09_range_complete_honest : forall (H : list N -> list N),
+  (forall x, length (H x) = 32%nat) ->
+  forall (db : pdb) (P : list N -> Prop),
+  (forall e b, P e -> db_get db (H e) = Some b -> b = e) ->
+  forall t r, can t -> content_ok t -> hash_root H t = Some r -> (forall e, genuine H t e -> P e) ->
+  forall first last keys values Lb,
+    keys_fixed t Lb -> (0 < Lb)%nat -> N.of_nat Lb < 2 ^ 30 ->
+    length first = Lb -> forallb byteb first = true ->
+    Forall (fun k => length k = Lb /\ forallb byteb k = true) keys ->
+    sorted keys ->
+    Forall2 (fun k v => lk t (keybytes_to_hex k) = Some v) keys values ->
+    Forall (fun k => between (keybytes_to_hex first) (keybytes_to_hex last) (keybytes_to_hex k)) keys ->
+    (forall hk v, lk t hk = Some v -> between (keybytes_to_hex first) (keybytes_to_hex last) hk ->
+                  In hk (map keybytes_to_hex keys)) ->
+    last_opt keys = Some last ->
+    (forall k0, hd_error keys = Some k0 -> slice_lt k0 first = false) ->
+    slice_lt first last = true ->
+    db_get db r <> None ->
+    ~ missing_on H db t (keybytes_to_hex first) -> ~ missing_on H db t (keybytes_to_hex last) ->
+    exists b, verify_range_proof H r first keys values (Some db) = Rok b /\
+              (b = true <-> has_gt t (keybytes_to_hex last)).
+Proof. exact range_complete_honest. Qed.
+Print Assumptions C09_range_complete_honest.
+
+(* a by-product, for ANY well-formed run whose last key is a key of the trie (honest or not) and
+   whose edge paths are present: it gets past the batch checks, both proofToPath calls and
+   unsetInternal, and can only end in acceptance, "invalid proof" or a MissingNodeError *)
 Theorem C09_range_complete_honest_partial : forall (H : list N -> list N),
   (forall x, length (H x) = 32%nat) ->
   forall (db : pdb) (P : list N -> Prop),
